@@ -13,7 +13,7 @@ import valgen
 import xv
 from xv import log
 
-CORPUS_VERSION = "20"
+CORPUS_VERSION = "21"
 
 BOUNDARY = [0, 1, 2, 3, 0xffff, 0x10000, 0x7fffffff, 0x80000000, 0xfffffffe, 0xffffffff]
 
@@ -146,6 +146,13 @@ def quick_specs(seed, tier):
         "union bdef2 switch (bool b) { default: void; case FALSE: void; };\n"
         "union cdef switch (unsigned int k) { case 1: default: void; case SEVEN: void; case 9: unsigned hyper uh; };\n"
         "struct replies { reply r<>; dfirst d<>; dfirst2 e[2]; cdef c; bdef2 b; };\n",
+        # enum members as labels of an INTEGER discriminant, mixed with literals and constants in
+        # fall-through groups (the emitted arm is a guard `c if c == E::M as u32`)
+        "enum ftype { F_REG = 1, F_DIR = 2, F_LNK = 5, F_BIG = 0x7fffffff };\nconst ZERO = 0;\n"
+        "union fmix switch (unsigned int k) { case 0: case F_REG: unsigned int size; case F_DIR: case 7: hyper h; case F_LNK: void; case F_BIG: case 9: void; default: void; };\n"
+        "union fmix2 switch (int k) { case ZERO: case F_DIR: int a; case F_REG: void; };\n"
+        "union fmix3 switch (unsigned int k) { case F_LNK: case F_REG: case 3: string s; default: unsigned hyper rest; };\n"
+        "struct fholder { fmix a<>; fmix2 b; fmix3 c[2]; };\n",
         # mutual recursion with the opaque data declared late (the generic index must not depend on
         # which member of a cycle is visited first)
         "const MAX_NAME = 8;\nstruct folder { unsigned int id; fentry entries<>; opaque acl<>; };\n"
